@@ -1357,6 +1357,10 @@ class XMLSchemaBase(XsdValidator, ElementPathMixin[Union[SchemaType, XsdElement]
                             else:
                                 identities[identity] = identity.get_counter(ancestors[k])
 
+                    # The namespace declarations of the ancestors are in scope for the element
+                    for k, e in enumerate(ancestors):
+                        context.converter.set_xmlns_context(e, k)
+
                     prev_ancestors = ancestors[:]
 
             xsd_element = schema.get_element(elem.tag, schema_path, namespaces)
